@@ -1,5 +1,6 @@
 import Orca.Lemmas.SemSim
 import Orca.Lemmas.SemBranch
+import Orca.Lemmas.SpecialFlat
 /-!
 # C19 — block exit probes fire when the block or arm falls through
 
@@ -65,5 +66,17 @@ def exSt : St := { stack := [], locals := [], globals := [], mem := [], trace :=
 example : (match run [] false [] 50 (lowerL [] (exNested false)) exSt with | .normal s => s.trace | _ => [0]) = [7, 1002, 8] := by decide
 example : (match run [] false [] 50 (lowerL [] (exNested true)) exSt with | .normal s => s.trace | _ => [0]) = [7, 8] := by decide
 example : (match run [] true [] 50 (exNested true) exSt with | .normal s => s.trace | _ => [0]) = [7, 8] := by decide
+
+/-- the flat-code statement for M3, the transcription of the resolver (every body; `Lemmas/SpecialFlat.lean`): a block-exit probe on
+    a `block` / `loop` is encoded in front of the construct's matching `end` (for an `else`: `c22_else_probes_reach_output`) -/
+theorem c19_flat_block_exit_placed (f : Orca.Lower.Func) (pre region post : List Orca.Lower.Instr) (sel endI : Orca.Lower.Instr)
+    (pr : List Orca.Lower.Tok) (hbody : f.body = pre ++ sel :: region ++ endI :: post) (hpne : post ≠ [])
+    (hsp : f.hasSpecial = true) (hentry : f.entry = []) (hexit : f.exit = [])
+    (hpre : ∀ x ∈ pre, Orca.Lower.Clean x) (hreg : ∀ x ∈ region, Orca.Lower.Clean x) (hend : Orca.Lower.Clean endI)
+    (hpost : ∀ x ∈ post, Orca.Lower.Clean x) (hsel : Orca.Lower.OnlyExit sel pr) (hk : sel.kind = .block ∨ sel.kind = .loop)
+    (hendk : endI.kind = .end_) (n n2 : Nat) (hd1 : Orca.Lower.depthAfter pre 1 = some n)
+    (hd2 : Orca.Lower.depthAfter region 0 = some 0) (hd3 : Orca.Lower.depthAfter post n = some n2) :
+    Orca.Lower.lower f = (Orca.Lower.toks pre ++ [sel.tok] ++ Orca.Lower.toks region ++ pr ++ [endI.tok] ++ Orca.Lower.toks post, f.added) :=
+  Orca.Lower.blockExit_placed f pre region post sel endI pr hbody hpne hsp hentry hexit hpre hreg hend hpost hsel hk hendk n n2 hd1 hd2 hd3
 
 end Orca.Sem
